@@ -592,6 +592,38 @@ func (f *fnState) specCall(x *spec.Call, c *specCtx) SV {
 			sum = "(+ " + strings.Join(terms, " ") + ")"
 		}
 		return boolSV(and(append(rng, eq(v.T, sum))...))
+	case "leval", "rle":
+		// leval(buf, off, k): the unsigned value of the k little-endian bytes buf[off..off+k)
+		// rle(r, pos, k): the same for bytes pos..pos+k of what reader r delivers
+		b, o, kk := arg(0), arg(1), arg(2)
+		k, ok := constInt(kk.T)
+		if !ok || k < 1 || k > 16 {
+			f.fail("%s: %s: width must be a constant", f.fn, x.Fn)
+		}
+		var terms []string
+		for j := 0; j < k; j++ {
+			var bt string
+			if x.Fn == "leval" {
+				bt = fmt.Sprintf("(select %s %s)", f.heapMapIn(c.env, "E$uint8", sInt), locOff(fmt.Sprintf("(s-loc %s)", b.T), fmt.Sprintf("(+ %s %d)", o.T, j)))
+				f.typeFacts(SV{Typ: types.Typ[types.Uint8], Sort: sInt, T: bt})
+			} else {
+				bt = fmt.Sprintf("(rbyte %s (+ %s %d))", f.streamID(b), o.T, j)
+			}
+			if j == 0 {
+				terms = append(terms, bt)
+			} else {
+				terms = append(terms, fmt.Sprintf("(* %s %s)", pow2(8*j), bt))
+			}
+		}
+		if k == 1 {
+			return intSV(terms[0])
+		}
+		return intSV("(+ " + strings.Join(terms, " ") + ")")
+	case "signed":
+		// signed(u, bits): the two's complement value of the unsigned reading u
+		u, bb := arg(0), arg(1)
+		k, _ := constInt(bb.T)
+		return intSV(fmt.Sprintf("(ite (< %s %s) %s (- %s %s))", u.T, pow2(k-1), u.T, u.T, pow2(k)))
 	case "unsigned":
 		// unsigned(v, bits): two's complement reading of a signed value
 		v, bb := arg(0), arg(1)
@@ -661,6 +693,28 @@ func (f *fnState) specCall(x *spec.Call, c *specCtx) SV {
 		return boolSV(fmt.Sprintf("(and (<= %s %s) (<= %s %s))", lo, v.T, v.T, hi))
 	case "it":
 		return f.iterCount(x, c)
+	}
+	if sf, ok := f.e.SpecFuncs[x.Fn]; ok && sf.Body != nil {
+		// macro: evaluate the body with parameters bound to the arguments (state-dependent)
+		n := *c
+		n.bound = map[string]SV{}
+		for k, v := range c.bound {
+			n.bound[k] = v
+		}
+		if len(sf.Params) != len(x.Args) {
+			f.fail("%s: %s expects %d arguments", f.fn, sf.Name, len(sf.Params))
+		}
+		for i, p := range sf.Params {
+			v := arg(i)
+			if _, t := c.specSort(p.Sort); t != nil && v.Typ == nil {
+				v.Typ = t
+			}
+			if v.Sort == sLoc && v.LV == nil && v.Typ != nil {
+				v = f.mk(v.Typ, v.T)
+			}
+			n.bound[p.Name] = v
+		}
+		return f.specVal(sf.Body, &n)
 	}
 	if sf, ok := f.e.SpecFuncs[x.Fn]; ok {
 		var ts []string
